@@ -7,9 +7,13 @@ CONSTANTS
   MaxDisc = 2
   Export = TRUE
   ExportOneIn = 40
+  StepDt = 250
+  TimeoutS = 5
+  TimeoutSteps = 21
 INVARIANT LockStep
 INVARIANT EventsOnce
 INVARIANT OnlyAsked
+INVARIANT NoEarlyTimeout
 INVARIANT ExportInv
 VIEW View
 CHECK_DEADLOCK FALSE
